@@ -663,6 +663,8 @@ func (r *Runner) builtin(ctx context.Context, pos syntax.Pos, name string, args 
 		}
 		switch len(args) {
 		case 0:
+			// the status of the last command run
+			exit.code = r.lastExit.code
 		case 1:
 			n, err := strconv.Atoi(args[0])
 			if err != nil {
